@@ -191,6 +191,9 @@ REFS = ['$(circus.wid)', '((circus.wid))', '$(CIRCUS.WID)', '((Circus.Wid))',
         'pre-$(circus.wid)-post', '$(circus.env.FOO)/$(circus.wid)']
 UNKNOWN = ['$(circus.bogus_zz)', '((circus.nope.x))', '$(other.thing)',
            '$(circus.env.MISSING)', '((circus.env.nokey))', '$(circus)',
+           # variables of the daemon's own environment: unknown to a watcher
+           # that does not copy it
+           '$(circus.env.PATH)', '((circus.env.home))',
            '$(circus.)', '$circus.wid', '$(circus.wid']
 
 
